@@ -347,6 +347,81 @@ def canon_impl(r):
     return out
 
 
+def printed_diff_stream(rep, tier, seed):
+    """the diff as PRINTED by `rustfmt --check` (titles `Diff in FILE:N:` followed by ' ' / '-' / '+' lines): every context and
+    removed line is the line of the original at the stated number, every context and added line the line of the formatted text"""
+    import re
+    import shutil
+    import subprocess
+    okb, blog, _ = common.build_bins()
+    if not okb:
+        raise RuntimeError("build of /repo binaries failed:\n" + blog)
+    env = common.rust_env()
+    env.pop("CARGO_TARGET_DIR", None)
+    rnd = common.rng(seed, PROP + "printed")
+    d = os.path.join(common.CACHE, "c12printed")
+    found = n = 0
+    for ci in range(40 if tier != "thorough" else 600):
+        shutil.rmtree(d, ignore_errors=True)
+        os.makedirs(d)
+        lines = []
+        for u in range(rnd.randint(2, 5)):
+            kind = rnd.choice(["split", "join", "fix", "fix", "blank"])
+            if kind == "split":
+                lines.append("fn s%d() {} fn t%d() {}" % (u, u))                 # one line becomes two (more added than removed)
+            elif kind == "join":
+                lines += ["fn j%d(" % u, ") {", "}"]                                # three lines become one
+            elif kind == "blank":
+                lines += ["", "", ""]                                               # blank lines are dropped
+            else:
+                lines.append("fn  x%d( ) {}" % u)
+            for k in range(rnd.randint(0, 9)):                                      # a run of clean lines: every gap from 0 to 9
+                lines.append("fn c%d_%d() {}" % (u, k))
+        text = "\n".join(lines) + "\n"
+        f = os.path.join(d, "a.rs")
+        open(f, "w").write(text)
+        pr = subprocess.run([common.bin_path("rustfmt"), "--check", "--color", "never", "--config-path", "/dev/null", f], capture_output=True, text=True, env=dict(os.environ, **env), timeout=60)
+        pf = subprocess.run([common.bin_path("rustfmt"), "--emit", "stdout", "-q", "--config-path", "/dev/null", f], capture_output=True, text=True, env=dict(os.environ, **env), timeout=60)
+        if pr.returncode not in (0, 1) or pf.returncode != 0:
+            continue
+        n += 1
+        orig, fmt = text.split("\n"), pf.stdout.split("\n")
+        bad = None
+        shift = 0                   # formatted line number = original line number + shift, between hunks
+        cur_o = cur_f = None
+        for ln in pr.stdout.split("\n"):
+            m = re.match(r"^Diff in .*?:(\d+):$", ln)
+            if m:
+                cur_o = int(m.group(1))
+                cur_f = cur_o + shift
+                continue
+            if cur_o is None or ln == "":
+                continue
+            tag, body = ln[0], ln[1:]
+            if tag in " -":
+                if cur_o - 1 >= len(orig) or orig[cur_o - 1] != body:
+                    bad = "line %r is printed as original line %d, which is %r" % (body, cur_o, orig[cur_o - 1] if cur_o - 1 < len(orig) else None)
+                    break
+                cur_o += 1
+            if tag in " +":
+                if cur_f - 1 >= len(fmt) or fmt[cur_f - 1] != body:
+                    bad = "line %r is printed as formatted line %d, which is %r" % (body, cur_f, fmt[cur_f - 1] if cur_f - 1 < len(fmt) else None)
+                    break
+                cur_f += 1
+            if tag == "+":
+                shift += 1
+            elif tag == "-":
+                shift -= 1
+        if (pr.returncode == 1) != (text != pf.stdout):
+            bad = bad or "--check exits %d although original %s formatted" % (pr.returncode, "==" if text == pf.stdout else "!=")
+        if bad:
+            if rep.violation("printed_diff_inconsistent", {"input": text, "check_stdout": pr.stdout, "formatted": pf.stdout}, "the diff printed by --check is not consistent with the two texts: %s" % bad):
+                found += 1
+    shutil.rmtree(d, ignore_errors=True)
+    rep.coverage["printed_diff_runs"] = n
+    return found
+
+
 def run(tier, seed, replay):
     rep = common.Reporter(PROP, tier, seed, "proof")
     rep.assumptions = TRUSTED
@@ -418,6 +493,8 @@ def run(tier, seed, replay):
             if rep.violation(key, {"case": c, "impl": r}, what):
                 found += 1
             break
+    if not replay:
+        found += printed_diff_stream(rep, tier, seed)
     tie_broken = (not proof_ok) or model is None or pp_model is None or disagreements
     if tie_broken and found == 0:
         what = []
